@@ -48,11 +48,23 @@ type knownFinding struct {
 }
 
 var (
-	known     []*knownFinding
-	prop      string
-	replayMu  sync.Mutex
-	violation bool
+	known        []*knownFinding
+	prop         string
+	replayMu     sync.Mutex
+	violation    bool
+	inconclusive bool
 )
+
+// Inconclusive records that a case could not be decided (a bound passed
+// while the observable state was not provably final). Never a violation:
+// the process exits with status 4 and the driver reports exit 2.
+func Inconclusive(reason string) {
+	E.Exclude("inconclusive." + reason)
+	replayMu.Lock()
+	inconclusive = true
+	replayMu.Unlock()
+	fmt.Fprintln(os.Stderr, "verif: INCONCLUSIVE:", reason)
+}
 
 func envInt(k string, d int) int {
 	if v, err := strconv.Atoi(os.Getenv(k)); err == nil {
@@ -98,6 +110,9 @@ func Main(m *testing.M, property, rule string) {
 	E = ev.New(property, rule)
 	loadKnown()
 	code := m.Run()
+	if code == 0 && inconclusive && !violation {
+		code = 4
+	}
 	sh, _ := Shard()
 	if err := E.Flush(os.Getenv("VERIF_STATS_DIR"), sh); err != nil {
 		fmt.Fprintln(os.Stderr, "verif: cannot flush stats:", err)
